@@ -76,6 +76,11 @@ CHECKS = {
             "Trusted: Coq kernel, translator, harness; discovery results are inputs of the model; clap/gix_config exercised only. No axioms.",
             "Rocq/Coq proof (all flag sets x arbitrary source lists) + exhaustive differential correspondence over flags x explicit options",
             "DESIGN.md section 6 C12"),
+    "C13": (True,
+            "Coq proofs on the fs-worker model: every turn of the repaired loop keeps 'own record = registered with the live watcher' for any three configuration reads (changes in the middle of a turn) and any failures; one turn over a stable configuration registers exactly the configured (path, mode) entries that were registered or whose attempt succeeds, with the configured kind, and an empty set releases the watcher; a blocked worker has started a turn after the latest change (change counter) for every interleaving; one error per failing attempt. Refutation witnesses for both repaired defects. PARTIAL: real notify backends are replaced by a recording watcher through the cfg hook. Changes are issued idle, from inside the n-th watch/unwatch call, and in rapid succession.",
+            'Trusted: Coq kernel, harness (recording notify::Watcher through the watchexec_verif factory hook). tokio Notify / RwLock semantics and the notify contract are modelled. No axioms.',
+            'Rocq/Coq invariant + convergence proof over the worker turn + re-entrant differential harness',
+            "DESIGN.md section 6 C13"),
     "C14": (True,
             "PARTIAL proof. Coq proofs about the DirTourist stack-machine model (any file system, listing order, watch list): every returned file is an "
             "explicit / origin-level file or the non-empty regular .ignore/.gitignore/.hgignore of a visited directory, tagged with that directory "
